@@ -40,7 +40,7 @@ FIELDS = ["id", "name", "count", "user_name", "x", "flag2", "a_b", "items", "kin
 VARIANTS = ["Idle", "Busy", "Off", "V2", "NotSet", "A", "Http2", "InProgress"]
 TYPES = ["Person", "Config", "State", "Rec9", "Item", "Header", "Stat", "Mode", "Point", "Leaf"]
 ERRORS = ["NotFound", "Busy", "Failed", "Invalid", "E2", "Denied"]
-DOCS = [" two leading blanks", "A doc.", "second line", "x", "with  two blanks", "trailing blank ", "Unicode é", "dash - and # hash"]
+DOCS = ["", " two leading blanks", "A doc.", "second line", "x", "with  two blanks", "trailing blank ", "Unicode é", "dash - and # hash"]
 
 def gen_docs(rng, p=0.35):
     if rng.random() > p:
@@ -118,7 +118,7 @@ def gen_module(rng, mi):
         types.append(t)
     return dict(idx=mi, types=types)
 
-def docs_tok(docs): return ",".join(hexs(d) for d in docs) or "-"
+def docs_tok(docs): return ",".join((hexs(d) if d else "_") for d in docs) or "-"   # `_`: an empty doc line
 
 def decl(m):
     o = [str(len(m["types"]))]
@@ -205,15 +205,26 @@ def write_if_changed(path, text):
 
 def main():
     seed, n, src = int(sys.argv[1]), int(sys.argv[2]), sys.argv[3]
+    skip = set(int(x) for x in sys.argv[4].split(",")) if len(sys.argv) > 4 and sys.argv[4] else set()
     rng = random.Random(seed * 15485863 + 5)
     mods = [gen_module(rng, i) for i in range(n)]
     src_lines = ["// GENERATED by /verif/corpus/gen_intro.py - do not edit.",
                  "#![allow(unused, non_snake_case, non_camel_case_types, dead_code, clippy::all)]",
                  "use crate::support::*;", "use crate::idltree::*;",
                  "use zlink_core::introspect::{CustomType, ReplyError as IntroReplyError, Type};", ""]
-    src_lines += [emit(m) for m in mods]
-    src_lines.append("pub fn run_all(out: &mut Vec<String>) {\n" + "\n".join(f"    i{m['idx']}::run(out);" for m in mods) + "\n}")
+    # line ranges of the modules (for attributing compile errors), written next to the source
+    import json
+    ranges = []
+    for m in mods:
+        if m["idx"] in skip:
+            continue
+        text = emit(m)
+        start = sum(x.count("\n") + 1 for x in src_lines) + 1
+        src_lines.append(text)
+        ranges.append(dict(idx=m["idx"], start=start, end=start + text.count("\n"), decl=decl(m)))
+    src_lines.append("pub fn run_all(out: &mut Vec<String>) {\n" + "\n".join(f"    i{m['idx']}::run(out);" for m in mods if m["idx"] not in skip) + "\n}")
     write_if_changed(os.path.join(src, "gen_intro.rs"), "\n".join(src_lines) + "\n")
+    write_if_changed(os.path.join(src, "gen_intro.lines.json"), json.dumps(ranges))
 
 if __name__ == "__main__":
     main()
